@@ -15,7 +15,7 @@ Variants ==
    timeouts |-> {"none", "all", "zeros", "i_read_neg", "i_dial_neg", "i_shutdown_neg", "i_handler_neg"},
    backends |-> {"one", "three_weighted", "weight0", "i_none", "i_noname", "i_noaddr", "i_weight_neg"},
    strategy |-> {"round_robin", "least_connections", "weighted_round_robin", "ip_hash", "ip_hash_consistent", "unset", "i_random"},
-   wspool   |-> {"off", "on", "on_zeros", "i_idle_gt_active", "i_neg_idle", "i_neg_timeout"},
+   wspool   |-> {"off", "on", "on_zeros", "on_active0", "i_idle_gt_active", "i_neg_idle", "i_neg_timeout"},
    active   |-> {"off", "on", "i_interval0", "i_timeout0", "i_timeout_ge_interval", "i_nopath"},
    passive  |-> {"off", "on", "i_thr0", "i_timeout0"},
    ratelimit|-> {"off", "on", "i_max0", "i_refill0"},
